@@ -41,6 +41,7 @@ func CaseDir() string {
 
 // Main is the TestMain body shared by all check packages.
 func Main(m *testing.M) {
+	startHangMonitor()
 	code := m.Run()
 	evid.Flush()
 	if os.Getenv("VERIF_SCRATCH") == "" && scratch != "" {
